@@ -382,12 +382,10 @@ func main() {
 
 	decRej := int64(0)
 	for i, tc := range cases {
+		// key class: base transaction (canonical, or only the fee in 8-byte form) vs a re-encoded one
 		origClass := "reencoded"
 		if tc.R.S1 < 0 {
-			origClass = "fee-8byte-only"
-			if tc.Canon {
-				origClass = "canonical"
-			}
+			origClass = "base"
 		}
 		for _, o := range results[i] {
 			replay := map[string]any{"case": tc, "config": tc.G.name(), "reenc": o.desc, "observation": o}
@@ -408,14 +406,18 @@ func main() {
 				if open {
 					continue
 				}
-				for _, ob := range []struct {
-					where string
-					acc   bool
-				}{{"rule", o.DirectAcc}, {"list", o.ListAcc}} {
-					if ob.acc != wantAcc {
-						c.Violation(fmt.Sprintf("maxsize|%s|%s|orig=%s|%s|accepts=%v", ob.where, tc.G.name(), origClass, pos, ob.acc),
-							fmt.Sprintf("original length %d, maxTxSize %d: expected accept=%v, %s accepts=%v (%s)", L, m, wantAcc, ob.where, ob.acc, o.DirectErr), replay)
-					}
+				where := ""
+				switch {
+				case o.DirectAcc != wantAcc && o.ListAcc != wantAcc:
+					where = "rule+list"
+				case o.DirectAcc != wantAcc:
+					where = "rule-only"
+				case o.ListAcc != wantAcc:
+					where = "list-only"
+				}
+				if where != "" {
+					c.Violation(fmt.Sprintf("maxsize|%s|%s|orig=%s|%s|accepts=%v", where, tc.G.name(), origClass, pos, !wantAcc),
+						fmt.Sprintf("%s: original length %d, maxTxSize %d: expected accept=%v, rule accepts=%v, list accepts=%v (%s)", o.desc, L, m, wantAcc, o.DirectAcc, o.ListAcc, o.DirectErr), replay)
 				}
 				continue
 			}
@@ -439,11 +441,14 @@ func main() {
 				c.Sample(replay)
 			}
 			k := fmt.Sprintf("%s|orig=%s|%s", tc.G.name(), origClass, o.overflow)
-			if below && o.DirectAcc {
-				c.Violation("minfee|rule|"+k+"|accepted-below-min", fmt.Sprintf("%s: fee %s < a*size+b = %s (a=%d b=%d, original length %d) accepted by the fee rule", o.desc, o.Fee, o.Min, tc.A, tc.B, o.L), replay)
-			}
-			if below && o.ListAcc {
-				c.Violation("minfee|list|"+k+"|accepted-below-min", fmt.Sprintf("%s: fee %s < a*size+b = %s (a=%d b=%d, original length %d) accepted by the rule list", o.desc, o.Fee, o.Min, tc.A, tc.B, o.L), replay)
+			if below && (o.DirectAcc || o.ListAcc) {
+				where := "rule+list"
+				if !o.DirectAcc {
+					where = "list-only"
+				} else if !o.ListAcc {
+					where = "rule-only"
+				}
+				c.Violation("minfee|"+where+"|"+k+"|accepted-below-min", fmt.Sprintf("%s: fee %s < a*size+b = %s (a=%d b=%d, original length %d) accepted (fee rule accepts=%v, rule list accepts=%v)", o.desc, o.Fee, o.Min, tc.A, tc.B, o.L, o.DirectAcc, o.ListAcc), replay)
 			}
 			if !below && !o.ListAcc {
 				c.Add("fee>=min_but_rejected(converse,not_a_violation)", 1)
